@@ -64,7 +64,7 @@ META['C05'] = dict(
 META['C06'] = dict(
   text=("Kernel-checked: isWriteableFlag i <-> i >= 6 on the constants regenerated from state/flag.go (a changed threshold breaks the build); FlagSet/FlagReset lists of any content leave flags 0..5 untouched, writeable ones take effect; "
         "while TERMINATE is set Vm.Run returns at once with the VM state untouched, for every program/fuel (terminate_blocks) and Exec reports stop with calls, lookups, position, flags and cache unchanged (terminate_blocks_exec); "
-        "CATCH moves iff flag = mode, CROAK drops the code iff flag = mode; dead code terminates or goes to _catch depending on READIN."),
+        "CATCH moves iff flag = mode, CROAK drops the code iff flag = mode; dead code terminates or goes to _catch depending on READIN. The precondition of the flag theorems (a well-shaped flag array) is no assumption about the input: a new state has it and Vm.Run keeps it for every program (run_keeps_flagsOk, reachable_flagsOk: a third walk over every instruction handler)."),
   note=_ENG_NOTE)
 META['C07'] = dict(
   text=("Kernel-checked: restore(snapshot e) reproduces state (minus unexported input/lastMove) and cache exactly; a fresh engine's renderer state is freshPage; every move re-creates exactly that renderer (vmReset_page_fresh) and every resume clears "
@@ -89,7 +89,7 @@ META['C18'] = dict(
 META['C20'] = dict(
   text=("Kernel-checked: empty code with DIRTY => stop, exiting, exit = last value (graceful_end_detected); code ending outside input handling sets TERMINATE; a fresh engine on a code-less stored session starts with MOVE <root> (restart_injects_entry); "
         "TERMINATE blocks every later run (from C06, for all programs); unwinding at a graceful end from ANY depth: reset succeeds and leaves the empty path, exactly the base cache scope, TERMINATE cleared and every flag other than TERMINATE/DIRTY (all client flags) unchanged "
-        "(engReset_unwinds, by induction over the depth, under one-scope-per-level). That Flush calls it exactly at a graceful end is by correspondence and the direct oracle on stored ExecPath/Flags/Cache."),
+        "(engReset_unwinds, by induction over the depth, under one-scope-per-level), and a successful Flush of an ended session leaves exactly that (flush_state, flush_unwinds). That the session is marked ended exactly at a graceful end is graceful_end_detected plus correspondence and the direct oracle on stored ExecPath/Flags/Cache."),
   note=_ENG_NOTE + "With WithFirst, blocked requests deliver the stale exit value (documented, outside the checked domain).")
 
 
